@@ -128,6 +128,8 @@ def rule_rule_keyed(ctx, rep):
                 return "RESULTS_NONE" if isinstance(e.ops[0], ast.Is) else "!RESULTS_NONE"
             if _fvar is not None and unparse(e) == _fvar:
                 return "FINDINGS"
+            if isinstance(e, ast.Compare) and len(e.ops) == 1 and isinstance(e.comparators[0], ast.Constant) and e.comparators[0].value is None and _fvar is not None and unparse(e.left) == _fvar:
+                return "FNONE" if isinstance(e.ops[0], ast.Is) else "!FNONE"
             if isinstance(e, ast.Call) and call_name(e) == "len" and e.args and _fvar is not None and unparse(e.args[0]) == _fvar:
                 return "FINDINGS"
             if isinstance(e, ast.Compare) and len(e.ops) == 1 and isinstance(e.left, ast.Call) and call_name(e.left) == "len" and e.left.args and unparse(e.left.args[0]) == _fvar \
@@ -142,7 +144,9 @@ def rule_rule_keyed(ctx, rep):
                     return x
             return None
 
-        combos = consistent_assignments_state(fa.state_at(c), atom, ["RESULTS_NONE", "FINDINGS"])
+        # FNONE: the findings value itself is None (the form `findings is not None and not findings` of the short-circuit test, where the
+        # findings come out of a helper that returns None without detector results); None is falsy, so FNONE and FINDINGS exclude each other
+        combos = [x for x in consistent_assignments_state(fa.state_at(c), atom, ["RESULTS_NONE", "FINDINGS", "FNONE"]) if not (x["FNONE"] and x["FINDINGS"])]
         bad = [x for x in combos if x["RESULTS_NONE"] is False and x["FINDINGS"] is False]
         passes = fvar is not None and len(c.args) >= 2 and unparse(c.args[1]) == "file_context"
         # the findings handed over are the per-file list built above
